@@ -169,6 +169,28 @@ fn expected(kind: &str, rules_on: bool, outcome: &Result<String, String>) -> boo
     }
 }
 
+/// Wait until the endpoint has settled after the clients of a section are gone: every accepted
+/// connection has finished its peek, every gauge the section raised is back, and no hook event has
+/// been recorded for a while. Bounded: a connection that never settles is the trace's business.
+fn settle(collected: &mut Vec<String>) {
+    let t0 = std::time::Instant::now();
+    let mut last_change = std::time::Instant::now();
+    loop {
+        let new = verif::drain_events();
+        if !new.is_empty() { last_change = std::time::Instant::now(); collected.extend(new); }
+        let mut accepted = 0i64; let mut peeked = 0i64; let mut gauge = 0i64;
+        for l in collected.iter() {
+            if l.contains("\"ev\":\"Accepted\"") { accepted += 1; }
+            else if l.contains("\"ev\":\"PeekDone\"") { peeked += 1; }
+            else if l.contains("\"ev\":\"Gauge\"") { if l.contains("\"delta\":1") { gauge += 1; } else { gauge -= 1; } }
+        }
+        let balanced = gauge == 0 && (peeked >= accepted || t0.elapsed() > Duration::from_secs(3));
+        let quiet = last_change.elapsed() >= Duration::from_millis(350);
+        if (balanced && quiet && t0.elapsed() >= Duration::from_millis(350)) || t0.elapsed() > Duration::from_secs(10) { return; }
+        std::thread::sleep(Duration::from_millis(25));
+    }
+}
+
 const KEEP: &[&str] = &["Accepted", "PeekDone", "RulesEval", "DemuxResult", "TlsAcceptStart", "Gauge"];
 
 fn main() {
@@ -223,6 +245,7 @@ fn main() {
             let auth: Arc<dyn trusttunnel::authentication::Authenticator> = Arc::new(trusttunnel::authentication::registry_based::RegistryBasedAuthenticator::new(settings.get_clients()));
             Core::new(settings, Some(auth), hosts, Shutdown::new()).expect("core")
         });
+        let mut collected: Vec<String> = vec![];
         verif::start_recording();
         // the builder always installs a rules engine (default: allow all); `rules_on` only adds deny rules
         let canon = if dual { "{\"::ffff:127.0.0.1\":\"127.0.0.1\",\"::ffff:127.0.0.70\":\"127.0.0.70\",\"::1\":\"::1\"}" } else { "{\"127.0.0.1\":\"127.0.0.1\",\"127.0.0.70\":\"127.0.0.70\"}" };
@@ -240,11 +263,11 @@ fn main() {
                 rep.violation_with(format!("endpoint:client-view:{}:{}{}", kind, if rules_on { "rules" } else { "norules" }, if dual { ":dual" } else { "" }), format!("client saw {:?}", outcome), || json!({"kind": kind, "rules": rules_on, "dual": dual}));
             }
             // let the endpoint settle, then close the connection's section of the trace
-            std::thread::sleep(Duration::from_millis(400));
+            settle(&mut collected);
             verif::emit("ConnEnd", format_args!("\"kind\":\"{}\"", kind));
         }
-        let lines = verif::stop_recording();
-        for l in lines {
+        collected.extend(verif::stop_recording());
+        for l in collected.drain(..) {
             let v: Value = serde_json::from_str(&l).unwrap_or(json!({}));
             let ev = v["ev"].as_str().unwrap_or("");
             if KEEP.contains(&ev) || ev == "Config" || ev == "ConnEnd" {
@@ -276,10 +299,11 @@ fn main() {
                         rep.violation_with(format!("endpoint:client-view:{}:{}{}:concurrent", k, if rules_on { "rules" } else { "norules" }, if dual { ":dual" } else { "" }), format!("client saw {:?}", outcome), || json!({"kind": k, "rules": rules_on, "dual": dual, "wave": picks}));
                     }
                 }
-                std::thread::sleep(Duration::from_millis(500));
+                settle(&mut collected);
                 verif::emit("WaveEnd", format_args!("\"n\":{}", width));
             }
-            for l in verif::stop_recording() {
+            collected.extend(verif::stop_recording());
+            for l in collected.drain(..) {
                 let v: Value = serde_json::from_str(&l).unwrap_or(json!({}));
                 let ev = v["ev"].as_str().unwrap_or("");
                 if KEEP.contains(&ev) || ev == "Config" || ev == "WaveEnd" {
